@@ -622,10 +622,12 @@ impl Oracle for FatCopies {
         } else {
             let want = free0 as i64 + (scan1 - scan0);
             if want >= 0 && want <= u32::MAX as i64 && free1 as i64 != want {
-                // only when the write-back actually happened (a flush of a clean file writes nothing)
+                // a flush / close of a clean file writes nothing at all and is no synchronisation point; closing the
+                // volume always is one, and so is every flush that wrote anything
                 let wrote_info = st.log.iter().any(|c| c.write && c.idx == info_blk);
+                let wrote_any = st.log.iter().any(|c| c.write);
                 let pre_free = le32(&pre.rd(info_blk), 488);
-                if wrote_info || pre_free != free1 {
+                if wrote_info || wrote_any || pre_free != free1 || matches!(st.op, Op::CloseVol { .. }) {
                     out.push(viol(
                         "C16",
                         format!("fsinfo/free-count-delta-wrong@{}", st.op.kind()),
@@ -638,7 +640,9 @@ impl Oracle for FatCopies {
         }
         if next1 != 0xFFFF_FFFF && !(2..v.clusters + 2).contains(&next1) {
             let wrote_info = st.log.iter().any(|c| c.write && c.idx == info_blk);
-            if wrote_info {
+            let wrote_any = st.log.iter().any(|c| c.write);
+            // (with the count unknown as well the crate never touches the sector, and what was there at mount stays)
+            if wrote_info || ((wrote_any || matches!(st.op, Op::CloseVol { .. })) && free0 != 0xFFFF_FFFF) {
                 out.push(viol(
                     "C16",
                     format!("fsinfo/next-free-hint-out-of-range@{}", st.op.kind()),
@@ -944,7 +948,7 @@ pub fn c16_scenarios(tier: &str) -> Vec<(String, ScenMaker)> {
         out.push(maker(o, "fsinfo-fullsub"));
     }
     // FSInfo variants on FAT32
-    let infos: &[FsInfo] = &[FsInfo::Correct, FsInfo::Unknown, FsInfo::StaleSmall, FsInfo::StaleLarge, FsInfo::NextOutOfRange];
+    let infos: &[FsInfo] = &[FsInfo::Correct, FsInfo::Unknown, FsInfo::StaleSmall, FsInfo::StaleLarge, FsInfo::NextOutOfRange, FsInfo::CountOnly, FsInfo::HintOnly];
     for &fi in infos {
         for (k, fr) in [(VolKind::V32a, 2usize), (VolKind::V32b, 3)] {
             if quick && k == VolKind::V32b && fi != FsInfo::Correct {
@@ -1160,7 +1164,8 @@ fn crash_scenarios(tier: &str, prefix: &'static str) -> Vec<(String, ScenMaker)>
     let kinds: &[VolKind] = &[VolKind::V16a, VolKind::V16b, VolKind::V32a, VolKind::V32b];
     for &k in kinds {
         for (fr, sub_free) in [(None, 1usize), (None, 0), (Some(3usize), 0)] {
-            if quick && fr.is_some() {
+            // quick: the nearly-full layout only on the volume whose last free cluster lies above 65535
+            if quick && fr.is_some() && k != VolKind::V32a {
                 continue;
             }
             let mut o = base_opts(k, fr, if quick { 4 } else { 5 }, Alpha::Mutate);
